@@ -19,11 +19,13 @@ from .values import SBool, SFloat, SInt, SNum, SOpt, SV, Unsupported, V, to_int_
 
 
 class LoopSpec:
-    def __init__(self, invariant, types=None, decreases=None, note=None, ghost=None):
-        self.invariant = invariant  # label -> clause (may use `it`, locals, function parameters)
+    def __init__(self, invariant, types=None, decreases=None, note=None, ghost=None, modifies_series=None, modifies_fields=None):
+        self.invariant = invariant  # label -> clause (may use `it`, locals, function parameters, old(...))
         self.types = types or {}  # havocked variable -> type string
         self.decreases = decreases
         self.ghost = ghost or {}
+        self.modifies_series = modifies_series or []  # [(series expr, key expr)]: reading keys the body may write
+        self.modifies_fields = modifies_fields or []  # [(object expr, field, type)]: object fields the body may assign
 
 
 def assigned_names(stmts):
@@ -93,14 +95,33 @@ def run_loop(ex, node, st, spec, cond_fn, bind_fn, n_term, keep_fn, label):
 
     frame = st.frames[-1]
     names = [n for n in assigned_names(node.body) if n in frame or n in spec.types]
-    env0 = lambda s, it: dict(s.frames[-1], it=SInt(it) if z3.is_expr(it) else it)
+    env0 = lambda s, it: dict(getattr(ex.ctx, 'ghost_env', {}), **dict(s.frames[-1], it=SInt(it) if z3.is_expr(it) else it))
+    entry = st.fork()  # old(...) in invariants refers to the state at loop entry
+
+    def SE(s, it):
+        return SpecEval(ex, s, env0(s, it), entry)
+
     # ---- entry
     for lab, src in spec.invariant.items():
-        oblige_spec(ex, st, "inv-entry", f"{label}:{lab}", SpecEval(ex, st, env0(st, z3.IntVal(0))).ev(src), node)
+        oblige_spec(ex, st, "inv-entry", f"{label}:{lab}", SE(st, z3.IntVal(0)).ev(src), node)
+    allowed = set()
 
     def havoc(s):
         for nme in names:
             s.frames[-1][nme] = fresh_like(nme, spec.types.get(nme), s.frames[-1].get(nme))
+        for ser_src, key_src in spec.modifies_series:
+            ev = SpecEval(ex, s, dict(s.frames[-1]))
+            ser, key = ev.ev(ser_src), ev.ev(key_src)
+            p = s.heap[ser.oid]
+            allowed.add(ser.oid)
+            keys = list(s.heap[key.oid].items) if isinstance(key, vals.Ref) else [key]
+            for kk in keys:
+                for which in ("I", "S"):
+                    p.havoc_all(which, kk, fresh_name("loop"))
+        for obj_src, fld, ty in spec.modifies_fields:
+            o = SpecEval(ex, s, dict(s.frames[-1])).ev(obj_src)
+            allowed.add(o.oid)
+            s.heap[o.oid].fields[fld] = fresh_like(fld, ty, s.heap[o.oid].fields.get(fld))
 
     # ---- arbitrary iteration
     body_st = st.fork()
@@ -109,7 +130,7 @@ def run_loop(ex, node, st, spec, cond_fn, bind_fn, n_term, keep_fn, label):
     body_st.assume(it >= 0)
     body_st.inst_terms.append(("term", it))
     for lab, src in spec.invariant.items():
-        assume_spec(ex, body_st, SpecEval(ex, body_st, env0(body_st, it)).ev(src), f"inv:{lab}")
+        assume_spec(ex, body_st, SE(body_st, it).ev(src), f"inv:{lab}")
     body_st.assume(vals.zbool(cond_fn(body_st, it)))
     if keep_fn is not None:
         # filtered sequence: an element that is filtered out leaves the state unchanged
@@ -117,18 +138,18 @@ def run_loop(ex, node, st, spec, cond_fn, bind_fn, n_term, keep_fn, label):
         skip_st.assume(z3.Not(vals.zbool(keep_fn(it))))
         if ex.ctx.feasible(skip_st):
             for lab, src in spec.invariant.items():
-                oblige_spec(ex, skip_st, "inv-preserve", f"{label}:{lab}:skipped-element", SpecEval(ex, skip_st, env0(skip_st, it + 1)).ev(src), node)
+                oblige_spec(ex, skip_st, "inv-preserve", f"{label}:{lab}:skipped-element", SE(skip_st, it + 1).ev(src), node)
         body_st.assume(vals.zbool(keep_fn(it)))
     if ex.ctx.feasible(body_st):
         gens = _heap_gens(body_st)
         bind_fn(body_st, it)
         for st1, sig in ex.exec_block(node.body, body_st):
             for oid, g in _heap_gens(st1).items():
-                if oid in gens and gens[oid] != g:
-                    raise Unsupported("heap modification inside an invariant-cut loop")
+                if oid in gens and gens[oid] != g and oid not in allowed:
+                    raise Unsupported("heap modification inside an invariant-cut loop (declare it in the loop spec)")
             if sig[0] in ("next", "continue"):
                 for lab, src in spec.invariant.items():
-                    oblige_spec(ex, st1, "inv-preserve", f"{label}:{lab}", SpecEval(ex, st1, env0(st1, it + 1)).ev(src), node)
+                    oblige_spec(ex, st1, "inv-preserve", f"{label}:{lab}", SE(st1, it + 1).ev(src), node)
                 if spec.decreases is not None:
                     pass
             elif sig[0] == "break":
@@ -142,7 +163,7 @@ def run_loop(ex, node, st, spec, cond_fn, bind_fn, n_term, keep_fn, label):
     exit_st.assume(itx >= 0)
     exit_st.inst_terms.append(("term", itx))
     for lab, src in spec.invariant.items():
-        assume_spec(ex, exit_st, SpecEval(ex, exit_st, env0(exit_st, itx)).ev(src), f"inv:{lab}")
+        assume_spec(ex, exit_st, SE(exit_st, itx).ev(src), f"inv:{lab}")
     exit_st.assume(z3.Not(vals.zbool(cond_fn(exit_st, itx))))
     if n_term is not None:
         exit_st.assume(itx == n_term)
